@@ -56,9 +56,9 @@ def control_obj(ip, repo, n_time_pre=0, n_time_post=0):
         tctl[side] = m
         ctimes[side] = Seq.from_list(ts, 'ndarray') if ts else Seq(0, lambda i: z3.RealVal(0), 'ndarray')
     dim = Int('dimension')
-    o = mkobj(repo, 'control.Control', _dimension=dim,
-              _step_controls={'pre': spre, 'post': spost},
-              _time_controls=tctl, _control_times=ctimes)
+    # built by the real constructor, then put into an arbitrary reachable state of its tables
+    o = mkobj_init(ip, repo, 'control.Control', [dim], _step_controls={'pre': spre, 'post': spost},
+                   _time_controls=tctl, _control_times=ctimes)
     return o, {'pre': (hpre, gpre), 'post': (hpost, gpost)}, tvals
 
 
@@ -173,6 +173,47 @@ def post_get(ip, ctx, out):
             ip.prove('ctrl/get[%s]' % side, z3.Implies(z3.Not(none_expected), got_z == acc))
 
 
+# ---- history: a look-up on one time grid must not influence a later look-up on another grid
+def invoke_get_twice(ip, repo, fref, ctx):
+    o = ctx['args'][0]
+    step1, dt1, t1 = Int('earlier_step'), Real('earlier_dt'), Real('earlier_start_time')
+    ip.add_pc(dt1 > 0)
+    try:
+        ip.call(fref, [o, step1], {'dt': dt1, 'start_time': t1})
+    except PyRaise:
+        pass
+    ip.log[:] = [e for e in ip.log if e[0] != 'print']
+    return ip.call(fref, ctx['args'], ctx['kwargs'])
+
+
+def invoke_add_then_get(ip, repo, fref, ctx):
+    """get, then add a step control, then get again: the newly added control must be seen"""
+    o = ctx['args'][0]
+    step = ctx['step']
+    ip.call(fref, ctx['args'], ctx['kwargs'])
+    new_op = Vc('added_later')
+    ip.add_pc(new_op != NONE)
+    ip.call(ip.getattr(o, 'add_single'), [step, new_op], {})
+    # account for it in the ghost tables the specification reads
+    h, g = ctx['maps']['pre']
+    ctx['added_later'] = new_op
+    return ip.call(fref, ctx['args'], ctx['kwargs'])
+
+
+def post_get_after_add(ip, ctx, out):
+    if not expect_no_other_exception(ip, out):
+        return
+    pre, post = out.value
+    h, g = ctx['maps']['pre']
+    step = ctx['step']
+    new = ctx['added_later']
+    hits, have_t, comp_t = _spec_side(ctx, 'pre')
+    stored = z3.If(h(step), MatMul(new, g(step)), new)
+    want = stored if comp_t is None else z3.If(have_t, MatMul(stored, comp_t), stored)
+    got = NONE if pre is None else pre
+    ip.prove('ctrl/get-sees-later-additions', got == want)
+
+
 # ---- K3: chain controls
 CompF = z3.Function('CompUpTo', IntS, IntS, V)      # (k entries processed, site) -> composed op / NONE
 AnyF = z3.Function('AnyUpTo', IntS, BoolS)
@@ -273,6 +314,12 @@ def targets(tier='quick'):
     for npre, npost in ((0, 0), (1, 0), (2, 0), (0, 1), (0, 2), (1, 1), (2, 2)):
         T.append(Target('ctrl/get[%d,%d]' % (npre, npost), 'control.Control.get_controls', scen_get(npre, npost),
                         post_get, R, PROP, replay=replay_ctrl, max_paths=3000))
+    for npre, npost in ((1, 0), (0, 1)):
+        T.append(Target('ctrl/get-after-earlier-lookup[%d,%d]' % (npre, npost), 'control.Control.get_controls', scen_get(npre, npost),
+                        post_get, R, PROP, invoke=invoke_get_twice, replay=replay_ctrl, max_paths=6000))
+    for npre in (0, 1):
+        T.append(Target('ctrl/get-add-get[%d]' % npre, 'control.Control.get_controls', scen_get(npre, 0),
+                        post_get_after_add, R, PROP, invoke=invoke_add_then_get, replay=replay_ctrl, max_paths=6000))
     RC = chain_registry()
     for pf in (False, True):
         T.append(Target('chain/get[post=%s]' % pf, 'control.ChainControl.get_single_site_controls', scen_chain(pf),
